@@ -315,6 +315,10 @@ func exec(op string) string {
 		return replayTrace(op)
 	case "sched":
 		return replaySched(op)
+	case "wtrace":
+		return replayW(op, true)
+	case "wsched":
+		return replayW(op, false)
 	}
 	return "bad-op"
 }
@@ -338,6 +342,56 @@ func main() {
 	// They come first: they are deterministic (no draw from the PRNG) and a writer with a size-dependent path shows
 	// up here as a rejected byte stream, ahead of the many model-vs-code lines it also breaks (the check keeps the
 	// first 50 disagreements only).
+	// writer-level scheduling tier (wsched.go): the shutdown leg of both writers in every order with enqueues, ticks,
+	// flush results and cancellations. Templates first (deterministic), then the random walk.
+	wcaseOut := func(c wcase) {
+		if c.cls == "fatal" {
+			fmt.Fprintln(os.Stderr, "c07:", c.sop)
+			os.Exit(3)
+		}
+		out.Case(c.top, "accept", "wtrace", true)
+		deferred = append(deferred, schedCase{c.sop, c.ans, c.cls})
+	}
+	for ci := 0; ci < 4; ci++ {
+		conf := wconf{coal: ci%2 == 1, wt: ci/2 == 1, lens: []int{40, 25, 31}}
+		for kind := 0; kind < 3; kind++ {
+			for mid := 0; mid <= 2; mid++ {
+				cutsT := []int{1, 8, 9, 10, 39}
+				if kind == 1 {
+					cutsT = []int{0, 5}
+				}
+				if tier == "thorough" {
+					cutsT = nil
+					for c := 0; c < 40; c++ {
+						cutsT = append(cutsT, c)
+					}
+				}
+				for cix, cut := range cutsT {
+					kinds := []string{errKinds[(ci+kind+mid+cix)%len(errKinds)]}
+					if tier == "thorough" {
+						kinds = errKinds
+					}
+					if kind == 2 {
+						kinds = append(kinds, "ok")
+					}
+					if kind == 1 {
+						kinds = []string{"ok"}
+					}
+					for _, ek := range kinds {
+						wcaseOut(wTemplate(conf, kind, cut, mid, ek))
+					}
+				}
+			}
+		}
+	}
+	nw := 400 * mult
+	if v := os.Getenv("C07_NWSCHED"); v != "" {
+		fmt.Sscan(v, &nw)
+	}
+	wr := vh.NewRng(vh.EnvSeed() ^ 0x7c07d) // its own stream: the draws of the older tiers stay what they were
+	for i := 0; i < nw; i++ {
+		wcaseOut(runWSched(wr, wconf{coal: i%4 != 0, wt: (i/4)%2 == 1}))
+	}
 	bigs := []int{100, 4095, 4096, 4097, 8191, 8192, 16384, 65537, 1 << 20}
 	ti := 0
 	for ci := 0; ci < 4; ci++ {
